@@ -359,6 +359,11 @@ def gen_history(rng, maxlen=40, risky=0.03, files=False, clone_p=0.03, into_p=0.
             if op["op"] == "UPD" and "m" in op and shapes:
                 op["shape"] = rng.choice(SHAPES_IN_USE if proxy_ok else cfglib.UPDATE_SHAPES)
             ops.append(plain_syntax(op))
+            if op["op"] == "UPD" and op.get("shape") == "proxy":
+                # known finding C06-update-from-proxy: what this call wrote is not what dict.update writes, and the
+                # difference can stay latent (the value written equals the one already visible) until a later reload;
+                # the history ends here so that a later failure is never a consequence of this call
+                n = len(ops)
             try:
                 if op["op"] == "FRESH":
                     refs.append(cfglib.Ref({"defaults": op["into"]}))
